@@ -267,21 +267,29 @@ def py_truediv(a, b):
     return _simp(val), _simp(z3.Or(z3.And(z3.Or(both_fin, decl), nz), fin_over_inf, inf_over_fin))
 
 
+def isextn(v):      # comparable as a number, nan included (every comparison with nan is False)
+    return z3.Or(isext(v), Val.is_nanv(v))
+
+
 def py_lt(a, b):
     """a < b with Python numeric-tower semantics; (value: Bool, defined: Bool)."""
-    val = z3.Or(rank(a) < rank(b), z3.And(rank(a) == 0, rank(b) == 0, numr(a) < numr(b)))
-    return _simp(val), _simp(z3.And(isext(a), isext(b)))
+    nonan = z3.And(z3.Not(Val.is_nanv(a)), z3.Not(Val.is_nanv(b)))
+    val = z3.And(nonan, z3.Or(rank(a) < rank(b), z3.And(rank(a) == 0, rank(b) == 0, numr(a) < numr(b))))
+    return _simp(val), _simp(z3.And(isextn(a), isextn(b)))
 
 
 def py_le(a, b):
-    val = z3.Or(rank(a) < rank(b), z3.And(rank(a) == rank(b), z3.Or(rank(a) != 0, numr(a) <= numr(b))))
-    return _simp(val), _simp(z3.And(isext(a), isext(b)))
+    nonan = z3.And(z3.Not(Val.is_nanv(a)), z3.Not(Val.is_nanv(b)))
+    val = z3.And(nonan, z3.Or(rank(a) < rank(b), z3.And(rank(a) == rank(b), z3.Or(rank(a) != 0, numr(a) <= numr(b)))))
+    return _simp(val), _simp(z3.And(isextn(a), isextn(b)))
 
 
 def py_eq(a, b):
-    """a == b (always defined).  Numbers compare by value across bool/int/float/Decimal."""
+    """a == b (always defined).  Numbers compare by value across bool/int/float/Decimal; nan != nan."""
     num = z3.And(isext(a), isext(b))
-    val = z3.If(num, z3.And(rank(a) == rank(b), z3.Or(rank(a) != 0, numr(a) == numr(b))), a == b)
+    anynan = z3.Or(Val.is_nanv(a), Val.is_nanv(b))
+    val = z3.If(anynan, z3.BoolVal(False),
+                z3.If(num, z3.And(rank(a) == rank(b), z3.Or(rank(a) != 0, numr(a) == numr(b))), a == b))
     return _simp(val)
 
 
